@@ -132,6 +132,7 @@ func runProperty(prop, tier, repo, verif, goarch string, noEvidence, list bool, 
 			return fail("panic", panicMsg)
 		}
 	}
+	r.prog = p
 	out := r.finish(kf)
 	if onlyKey != "" {
 		for _, o := range out.violations {
